@@ -187,7 +187,13 @@ CHECKS = {
             "real client; the model is run on the abstracted views. At the level of documents: parsing a role's file into "
             "the typed representation and serialising it again keeps every member of a covered document, unknown "
             "top-level members and custom data included (C17_reserialise_lossless, from the schema model of C12; the two "
-            "levels without a catch-all are those of known finding F7).",
+            "levels without a catch-all are those of known finding F7). On the state machine of the editing operations "
+            "(Model/EdOps.v, RepositoryEditor and TargetsEditor branch by branch): from_repo followed by any additions, "
+            "removals, new versions and expirations hands to sign the delegated roles it loaded - headers, documents, own "
+            "delegations, signatures - and the key table unchanged, and changes the top-level targets by exactly the "
+            "additions and removals made (C17_update_preserves_tree); two-generation programs run through the real editor "
+            "and through the extracted state machine on every run (answers per call, ed_sign_tree on the state reached "
+            "against every file written after the update, delegated role files of both generations compared).",
             NOTE + " The model represents verbatim-copied components by identities (hash of the JSON value).", "5/C17"),
     "C19": ("Coq proofs: server extensionality of the update cycle, the cached copy as a server, replay of a successful "
             "cycle on the copy; file-name lemmas for what the cache writes; end-to-end cache / reload runs",
